@@ -211,6 +211,27 @@ def _w_sampler(case, ctx, rng):
         from pyttb.pyttb_utils import tt_sub2ind
 
         nzidx = np.sort(tt_sub2ind(data.shape, data.subs))
+        # the two-stratum samplers called directly with the smallest requests: one sample in all, none from one stratum
+        for nnz_req, nz_req in ((1, 0), (0, 1), (1, 1), (0, 3), (2, 0)):
+            for sname, call in (("stratified", lambda a=nnz_req, b=nz_req: SAM.stratified(data, nzidx, a, b)), ("semistrat", lambda a=nnz_req, b=nz_req: SAM.semistrat(data, a, b))):
+                rr = ctx.call("samplers." + sname, call)
+                if not rr.ok:
+                    ctx.check(False, "samplers." + sname, "RAISE:" + type(rr.exc).__name__, f"{type(rr.exc).__name__}: {rr.exc} | {rr.tb}", request=f"{nnz_req}+{nz_req}")
+                    continue
+                ss, sv, sw = (np.asarray(x) for x in rr.value)
+                p_ = ss.shape[0] if ss.ndim == 2 else -1
+                ctx.check(ss.ndim == 2 and sv.shape == (p_,) and sw.shape == (p_,) and p_ <= nnz_req + nz_req, "samplers." + sname, "SAMPLE-COUNT",
+                          f"request {nnz_req}+{nz_req}: subs {ss.shape}, vals {sv.shape}, weights {sw.shape} (one value and one weight per sample)", request=f"{nnz_req}+{nz_req}")
+                if ss.ndim == 2 and sv.shape == (p_,) and p_ > 0:
+                    if nnz_req and nz_req:
+                        _check_sample(ctx, "samplers." + sname, rr.value, A, sname, (nnz_req, nz_req), request=f"{nnz_req}+{nz_req}")
+                    else:
+                        # one stratum only: the weights stand for that stratum alone, so only placement and values are judged
+                        ins_ = bool((ss >= 0).all()) and bool((ss < np.array(A.shape)).all())
+                        ctx.check(ins_, "samplers." + sname, "SAMPLE-OUTSIDE", f"subscript outside the tensor for request {nnz_req}+{nz_req}", request=f"{nnz_req}+{nz_req}")
+                        if ins_ and (nnz_req or sname == "stratified"):
+                            ctx.check(bool(np.array_equal(sv, A[tuple(ss.T)])), "samplers." + sname, "SAMPLE-VALUE", "sample values differ from the data at the sampled subscripts",
+                                      request=f"{nnz_req}+{nz_req}")
         for wr in (True, False):
             want_n = int(min(max(1, ng), max(1, (size - nnz) // 2) if not wr else 10 ** 9))      # (close to all zeros without replacement is a documented rejection)
             rr = ctx.call("samplers.zeros", SAM.zeros, data, nzidx, want_n, with_replacement=wr)
